@@ -2118,6 +2118,9 @@ def serialize_tensor_into(
     if isinstance(from_, TensorProtoTensor):
         # Directly copy from the tensor proto if it is available
         tensor_proto.CopyFrom(from_.raw)
+        # The metadata of the IR tensor was initialized from the proto and is
+        # authoritative; do not emit the copied entries a second time
+        del tensor_proto.metadata_props[:]
         if from_.metadata_props:
             _serialize_metadata_props_into(tensor_proto.metadata_props, from_.metadata_props)
         return
